@@ -59,7 +59,7 @@ var quickMutOps = map[string]bool{
 	"parenFun": true, "parenRecv": true, "parenRecvStar": true, "parenType": true, "dropRecvName": true,
 	"bareReturn": true, "blankIdent": true, "emptyBody": true, "panicBody": true, "noBody": true, "addTypeParam": true,
 	"emptySwitch": true, "emptyStruct": true, "emptyGenDecl": true, "emptyLit": true, "emptyCaseBody": true, "caseToDefault": true,
-	"rangeNoVars": true, "dropIfInit": true, "dropElse": true, "emptyString": true, "constInSiblingFile": true,
+	"rangeNoVars": true, "dropIfInit": true, "dropElse": true, "emptyString": true, "constInSiblingFile": true, "doubleParen": true,
 }
 
 func runProgramChecks(prop string, args []string) int {
